@@ -28,6 +28,16 @@ PROPS = {
                 "distinct_nontrivial = distinct (pod, version) pairs allowed at restricted",
         'assumptions': ["API-valid pods only (the hypothesis is necessary: the API-invalid stream shows counterexamples)"],
     },
+    'C04': {
+        'level_text': "Theorem C04_resolves, generic in the payload type: for every well-formed check set, level and requested version (latest or v1.N, N unbounded) the loop-level model of populate/inflateVersions/EvaluatePod returns exactly the resolution rule `spec` at the version clamped to the newest revision; C04_privileged; C04_latest_is_newest. Random valid and malformed check sets with marker functions are run through the real NewEvaluator and compared with the model and with an independent Go transcription of the rule and of the malformedness list.",
+        'level_note': "Trusted: Lean kernel; harness. Domain: revisions with major version 1 (a revision with another major makes the real NewEvaluator loop forever; outside the property's list). validateChecks <-> WellFormed is compared differentially and against the Go oracle, not yet proved.",
+        'rule': "random check sets (0-6 checks, ids with duplicates, valid/invalid levels, 0-4 revisions increasing / equal / decreasing / unset / latest, overrides to baseline / restricted / missing ids / by baseline checks); 60% valid; each accepted set queried at 3 levels x v1.0..v1.14, latest, v1.1000000. distinct_nontrivial = accepted sets with an override and a multi-revision check",
+    },
+    'C05': {
+        'level_text': "Theorems C05_level_iff/roundtrip, C05_version_iff/roundtrip/print_parse (all strings; canonical v1.N within int64), C05_policy and C05_errors (PolicyToEvaluate = the fail-safe rule stated outright, for all label maps and defaults), C05_only_six, fail-closed/open corollaries. Strings and label maps compared with the real ParseLevel/ParseVersion/PolicyToEvaluate and with an independent Go transcription of the rule.",
+        'level_note': "Trusted: Lean kernel; harness. Strings are byte lists (valid UTF-8 over the JSON transport). Go's regexp and strconv.Atoi are modelled (canonical decimal, <= 2^63-1) and tied by the differential run, not verified.",
+        'rule': "all catalogued valid/malformed version and level strings + mutated strings (delete/insert/replace/append/prepend, huge minors); label maps with each of six labels absent / valid / malformed plus unrelated and near-miss keys x random defaults. distinct_nontrivial = distinct accepted version strings + label maps with > 2 labels",
+    },
     'C13': {
         'claimed': False,
         'level_text': "", 'level_note': "",
